@@ -132,6 +132,11 @@ EXPORT errno_t _wcsncmp_s_chk(const wchar_t *restrict dest, rsize_t dmax,
         count--;
     }
 
-    *resultp = *dest - *src;
+    /* nothing is compared beyond count elements; do not look at dest[dmax] or
+       src[smax] either */
+    if (dmax && smax && count)
+        *resultp = *dest - *src;
+    else
+        *resultp = (count && dmax) ? (*dest != 0) : 0;
     return RCNEGATE(EOK);
 }
